@@ -251,6 +251,30 @@ let spec_session = memo1 (fun (s, rest, out) ->
                | Some r -> r
                | None -> "observations rejected by the reference session checker (a token, Text, Complete or Err differs from the reference, Text/Complete changed after the end, or Rest is not exactly the unconsumed input)"))
 
+(* Quote writes at most four bytes per byte of its argument (a single quote becomes '\'') plus two
+   quotes, Join one separator more per element: a text (the whole output of a Q, J, H or K line,
+   run-length groups expanded) longer than that for ALL the line's strings taken once per result is
+   wrong without being read -- the transcription of the shell grammar is quadratic in its input, and
+   a change that lets results grow from call to call would otherwise stall the driver. *)
+let expanded_len s =
+  (* length in bytes of what a trace text stands for: hex pairs and r<count>z<block>z groups *)
+  let n = String.length s in
+  let rec go i acc =
+    if i >= n then acc else
+    if s.[i] = 'r' then
+      (match String.index_from_opt s i 'z' with
+       | Some j -> (match String.index_from_opt s (j + 1) 'z' with
+           | Some e -> let k = (try int_of_string (String.sub s (i + 1) (j - i - 1)) with _ -> 1) in
+             go (e + 1) (acc + k * (e - j - 1))
+           | None -> acc)
+       | None -> acc)
+    else go (i + 1) (acc + 1) in      (* counted in hex digits; punctuation counts as one *)
+  (go 0 0 + 1) / 2
+let too_long_for l out =
+  let total = List.fold_left (fun a x -> a + 4 * List.length x + 3) 0 l in
+  let results = 2 * (List.length l + 1) in          (* H: a Quote and a Join per element *)
+  expanded_len out > results * (total + 8) + 64
+
 (* "<0|1>:<list>" of a K line, decoded *)
 let parse_ksplit o =
   match String.split_on_char ':' o with
@@ -263,6 +287,8 @@ let parse_ksplit o =
 let spec_k prop ss ops out =
   let l = unhexs ss in
   let ops = String.split_on_char ',' ops and outs = String.split_on_char ';' out in
+  if prop = "C15" && expanded_len out > (List.length ops + 1) * (List.fold_left (fun a x -> a + 4 * List.length x + 3) 0 l + 8) + 64 then
+    Some "a result is longer than any quotation of the arguments" else
   if List.length ops <> List.length outs then
     Some (if List.mem "PANIC" outs then "the package panicked" else if List.mem "RUNAWAY" outs then "the scanner never stops"
           else "wrong number of results")
@@ -304,6 +330,8 @@ let spec_k prop ss ops out =
 
 let spec prop inp out =
   match prop, words (unus inp) with
+  | "C15", (("Q" | "J" | "H") :: _) when too_long_for (match words (unus inp) with [_; ss] -> unhexs ss | _ -> []) out ->
+    Some "the result is longer than any quotation of the arguments"
   | _, ["K"; ss; ops] -> spec_k prop ss ops out
   | "C16", ["S"; s] ->
     let (fs, ok) = M.ref_split (unhex s) in
